@@ -366,6 +366,26 @@ class Gen:
             out.append((t, self.rng.randbytes(size)))
         return out
 
+    def all_tags_nondefault(self, spec: StructSpec) -> dict | None:
+        """A tree in which every tagged field of spec holds a non-default value (so that every one of them travels on the wire); None when
+        spec has no tagged field."""
+        forced = {}
+        for fs in spec.tagged:
+            cells = self.cells(fs)
+            near = [c for c in cells if c.startswith(("nd:", "nds:", "ndz"))]
+            if fs.array:
+                forced[fs.name] = "one"
+            elif near:
+                forced[fs.name] = self.rng.choice(near)
+            elif fs.kind == "struct":
+                forced[fs.name] = "value"
+            else:
+                d = fs.effective_default()
+                ok = [c for c in cells if c.startswith("p:") and c[2:] not in BIG_LABELS and not trees_equal(pool_value(random.Random(0), fs.ktype, c[2:]), d)]
+                if ok:
+                    forced[fs.name] = self.rng.choice(ok)
+        return self.struct(spec, 0, forced) if forced else None
+
     # ----- each-choice coverage --------------------------------------------------------
     def each_choice(self, spec: StructSpec, extra_random: int = 2) -> list[dict]:
         """Trees that together hit every (field, cell) of spec's own fields at least once."""
